@@ -5,7 +5,7 @@
 //!   graph  : every functional relation graph on n <= 3 instances (each instance absolute or relative to any
 //!            instance, itself included) x every listing permutation x a deviation-bounded edge alphabet
 //!   graph4 : the same on exactly 4 instances (quick: default labels only; thorough: 2 deviations)
-//!   array  : array instances (count, pitch, reflection, one nesting level)
+//!   array  : array instances (count, pitch, reflection, one or two nesting levels)
 //!
 //! Oracle: a constraint checker written from the property statement. It never computes a location the way
 //! `Placer::resolve_instance_place` does; it only checks the bounding-box relations the statement names, on
@@ -82,6 +82,8 @@ pub struct ArrayDef {
     pub pitch: (Option<i64>, Option<i64>),
     /// one nesting level: the arrayed unit is itself an array (count, pitch) of `cell`
     pub inner: Option<(usize, (Option<i64>, Option<i64>))>,
+    /// a third nesting level: the unit of `inner` is itself an array (count, pitch) of `cell`
+    pub inner2: Option<(usize, (Option<i64>, Option<i64>))>,
     pub rh: bool,
     pub rv: bool,
     pub at: (i64, i64),
@@ -151,7 +153,7 @@ impl Program {
             .iter()
             .enumerate()
             .map(|(i, a)| json!({"name": format!("a{i}"), "cell": format!("c{}", a.cell), "count": a.count, "pitch_xy": [a.pitch.0, a.pitch.1],
-                "inner_array": a.inner.as_ref().map(|(c, p)| json!({"count": c, "pitch_xy": [p.0, p.1]})), "reflect_horiz": a.rh, "reflect_vert": a.rv, "loc": [a.at.0, a.at.1]}))
+                "inner_array": a.inner.as_ref().map(|(c, p)| json!({"count": c, "pitch_xy": [p.0, p.1]})), "innermost_array": a.inner2.as_ref().map(|(c, p)| json!({"count": c, "pitch_xy": [p.0, p.1]})), "reflect_horiz": a.rh, "reflect_vert": a.rv, "loc": [a.at.0, a.at.1]}))
             .collect();
         let cells: Vec<Value> = self.cells.iter().enumerate().map(|(i, c)| json!({"name": format!("c{i}"), "outline_rect": [c.0, c.1]})).collect();
         json!({"cells": cells, "instances": insts, "arrays": arrays, "parent_listed_first": self.parent_first, "two_parent_cells_second_moved_by_31_-17": self.two_parents, "stepped_outlines_same_bounding_box": self.stepped})
@@ -296,7 +298,10 @@ pub fn run_program(p: &Program, listing: &[usize]) -> Result<Vec<ParentSeen>, St
                 None => Arrayable::Instance(cellptrs[a.cell].clone()),
                 Some((cnt, pitch)) => Arrayable::Array(Ptr::new(Array {
                     name: format!("a{i}_inner"),
-                    unit: Arrayable::Instance(cellptrs[a.cell].clone()),
+                    unit: match &a.inner2 {
+                        None => Arrayable::Instance(cellptrs[a.cell].clone()),
+                        Some((c2, p2)) => Arrayable::Array(Ptr::new(Array { name: format!("a{i}_innermost"), unit: Arrayable::Instance(cellptrs[a.cell].clone()), count: *c2, sep: sep_xy(*p2) })),
+                    },
                     count: *cnt,
                     sep: sep_xy(*pitch),
                 })),
@@ -493,17 +498,23 @@ pub fn expected_children(p: &Program, a: &ArrayDef) -> Vec<(String, (i64, i64), 
         Some((c, pp)) => (*c, *pp),
     };
     let _ = p;
+    let (kcount, kpitch) = match (&a.inner, &a.inner2) {
+        (Some(_), Some((c, pp))) => (*c, *pp),
+        _ => (1usize, (None, None)),
+    };
     for i in 0..a.count as i64 {
         for j in 0..icount as i64 {
-            let mut dx = i * a.pitch.0.unwrap_or(0) + j * ipitch.0.unwrap_or(0);
-            let mut dy = i * a.pitch.1.unwrap_or(0) + j * ipitch.1.unwrap_or(0);
-            if a.rh {
-                dx = -dx;
+            for k in 0..kcount as i64 {
+                let mut dx = i * a.pitch.0.unwrap_or(0) + j * ipitch.0.unwrap_or(0) + k * kpitch.0.unwrap_or(0);
+                let mut dy = i * a.pitch.1.unwrap_or(0) + j * ipitch.1.unwrap_or(0) + k * kpitch.1.unwrap_or(0);
+                if a.rh {
+                    dx = -dx;
+                }
+                if a.rv {
+                    dy = -dy;
+                }
+                v.push((format!("c{}", a.cell), (a.at.0 + dx, a.at.1 + dy), a.rh, a.rv));
             }
-            if a.rv {
-                dy = -dy;
-            }
-            v.push((format!("c{}", a.cell), (a.at.0 + dx, a.at.1 + dy), a.rh, a.rv));
         }
     }
     v
@@ -940,12 +951,12 @@ impl CaseDriver for Arr {
     }
     fn describe(&self, t: Tier) -> Describe {
         describe_with(format!(
-            "array instances at an absolute origin ((9,13) / (-5,-8) / (0,0) / (0,20) / (30,0)): count 1..={} x pitch {{(4,0),(0,5),(4,-3),(-6,2)}} x 4 reflections x unit {{cell, inner array of count 1..=3 x 4 pitches}} x with/without two ordinary instances (one absolute, one placed relative to it) in the same layout, full product, each also with stepped outlines or with a second, moved parent cell holding the same program. State = one program; non-trivial = more than one child.",
+            "array instances at an absolute origin ((9,13) / (-5,-8) / (0,0) / (0,20) / (30,0)): count 1..={} x pitch {{(4,0),(0,5),(4,-3),(-6,2)}} x 4 reflections x unit {{cell, inner array of count 1..=3 x 4 pitches, optionally (costed) holding a third level of count 1..=2 x 4 pitches}} x with/without two ordinary instances (one absolute, one placed relative to it) in the same layout, full product, each also with stepped outlines or with a second, moved parent cell holding the same program. State = one program; non-trivial = more than one child.",
             t.pick(3, 4)
         ))
     }
     fn bound(&self, _t: Tier) -> usize {
-        // the two costed options (stepped outlines, a second moved parent cell) one at a time
+        // the costed options (stepped outlines, a second moved parent cell, a third nesting level) one at a time
         1
     }
     fn gen(&self, t: Tier, c: &mut Chooser) -> Program {
@@ -967,11 +978,23 @@ impl CaseDriver for Arr {
         };
         let stepped = c.cost(2, "stepped-outlines") == 1;
         let two_parents = c.cost(2, "two-parents") == 1;
-        Program { cells: GRAPH_CELLS.to_vec(), insts, arrays: vec![ArrayDef { cell, count, pitch, inner, rh: r.0, rv: r.1, at }], parent_first: false, two_parents, stepped }
+        // a third nesting level (count 1..=2 x 4 pitches) below the inner array
+        let inner2 = if inner.is_some() {
+            match c.cost(9, "third-level") {
+                0 => None,
+                k => Some((1 + (k - 1) / 4, PITCHES[(k - 1) % 4])),
+            }
+        } else {
+            None
+        };
+        Program { cells: GRAPH_CELLS.to_vec(), insts, arrays: vec![ArrayDef { cell, count, pitch, inner, inner2, rh: r.0, rv: r.1, at }], parent_first: false, two_parents, stepped }
     }
     fn check(&self, p: &Program, key: &str, cx: &mut Cx) {
         let a = &p.arrays[0];
-        let kids = a.count * a.inner.as_ref().map(|i| i.0).unwrap_or(1);
+        let kids = a.count * a.inner.as_ref().map(|i| i.0).unwrap_or(1) * a.inner2.as_ref().map(|i| i.0).unwrap_or(1);
+        if a.inner2.is_some() {
+            cx.tag("array:three-levels");
+        }
         cx.state(hash_debug(p), kids > 1);
         cx.tag(match (a.rh, a.rv) {
             (false, false) => "array-refl:none",
@@ -995,7 +1018,7 @@ impl CaseDriver for Arr {
     fn guards(&self, _t: Tier, stats: &Stats, _d: u64) -> Result<(), String> {
         require_tags(
             stats,
-            &["array-refl:none", "array-refl:h", "array-refl:v", "array-refl:hv", "array:nested", "array:flat", "array-count:1", "array-count:2", "array-count:3", "array-pitch:x", "array-pitch:y", "array-pitch:xy"],
+            &["array-refl:none", "array-refl:h", "array-refl:v", "array-refl:hv", "array:nested", "array:three-levels", "array:flat", "array-count:1", "array-count:2", "array-count:3", "array-pitch:x", "array-pitch:y", "array-pitch:xy"],
         )
     }
     fn unit_target(&self, _t: Tier) -> usize {
